@@ -54,6 +54,11 @@ def Conn.alive (c : Conn) : Bool := c.ended.isNone
 /-- a new connection to a server whose transport was created at `t0` -/
 def Conn.opened (t0 : Nat) : Conn := { ts := ⟨SrvState.init, t0⟩ }
 
+/-- `if uds_response_raw is not None: writer.write(hexlify(uds_response_raw) + b"\n")` -/
+def lineOf : Option Server.Resp → Bytes
+  | some x => enc x.pdu
+  | none => []
+
 /-- one pass of the loop over a complete line `l ++ "\n"` (`l`: what precedes the newline), with the two clock reads of
     `handle_request` and the random decisions of the handler call; returns the loop and what was written -/
 def serveLine (m : Model) (c : Conn) (l : Bytes) (start stop : Nat) (o : Orc) : Conn × Bytes :=
@@ -62,7 +67,7 @@ def serveLine (m : Model) (c : Conn) (l : Bytes) (start stop : Nat) (o : Orc) : 
   | .msg b =>
     match vecuHandleSE allOn m c.ts ⟨start, stop, b, o⟩ with
     | (ts', .ok _ reply) =>
-      ({ c with ts := ts', served := c.served + 1 }, match reply with | some x => enc x.pdu | none => [])
+      ({ c with ts := ts', served := c.served + 1 }, lineOf reply)
     | (ts', .crash cr) => ({ c with ts := ts', ended := some (.raised cr) }, [])
   | _ => ({ c with ended := some .badLine }, [])
 
